@@ -322,6 +322,9 @@ def gen_sequence(rng: random.Random) -> dict:
                 v = gen_chainer_value(rng)
             else:
                 v = gen_val(rng, 2)
+            prev = [o2 for o2 in ops if "v" in o2 and o2["k"] == k] + [{"v": v0} for k0, v0 in ini["g"] + ini["c"] if k0 == k]
+            if prev and rng.random() < 0.45:            # re-adding the value a key already has is allowed
+                v = variant(rng, prev[-1]["v"]) if rng.random() < 0.5 else prev[-1]["v"]
             o = {"op": kind, "k": k, "v": v}
         ops.append(o)
     return {"init": ini, "ops": ops}
@@ -882,6 +885,375 @@ def infeatures_witness() -> dict:
 
 
 # ------------------------------------------------------------------------------------------------------------
+# grouping: unit level (real Features through the real grouping function) and end to end (mloda.run_all)
+# ------------------------------------------------------------------------------------------------------------
+REQ_G = REQ_ID + ["MV.Model.Grouping", "MV.Spec.GroupingSpec"]
+EXTRA_G = EXTRA_OPS + """
+Definition nsub (a b : list nat) := forallb (fun x => existsb (Nat.eqb x) b) a.
+Definition nset_eq (a b : list nat) := nsub a b && nsub b a.
+Definition part_ordered (m o : list (list nat)) := all2 nset_eq m o.
+Definition part_unordered (m o : list (list nat)) :=
+  Nat.eqb (List.length m) (List.length o) && forallb (fun g => existsb (nset_eq g) o) m.
+Fixpoint insert_all {A} (x : A) (l : list A) : list (list A) :=
+  match l with [] => [[x]] | y :: t => (x :: l) :: map (cons y) (insert_all x t) end.
+Fixpoint perms {A} (l : list A) : list (list A) :=
+  match l with [] => [[]] | x :: t => flat_map (insert_all x) (perms t) end.
+Definition g_case := (list gfeat * list (list nat))%type.
+(* unit level: the list is the iteration order of the very set that was passed in; groups in dict order *)
+Definition chk_group (c : g_case) : bool := part_ordered (group_features (fst c)) (snd c).
+(* end to end: the set order inside the planner is not observable: some order must explain the calls *)
+Definition chk_e2e (c : g_case) : bool := existsb (fun p => part_unordered (group_features p) (snd c)) (perms (fst c)).
+Definition chk_not_ambiguous (c : g_case) : bool := negb (kf_ambiguous (map (item_of (fst c)) (fst c))).
+Definition chk_not_conflated (c : g_case) : bool := negb (kf_hash_conflation (fst c)).
+(* derived features: child options d_i merged into the (empty) options of the input features *)
+Definition empty_opts : ostate := {| og := []; oc := []; opk := [] |}.
+Definition d_case := (list ini_t * list (list (list (pykey * pyval) * list (pykey * pyval))))%type.
+Fixpoint nub_by {A} (eq : A -> A -> bool) (l : list A) : list A :=
+  match l with [] => [] | x :: t => x :: filter (fun y => negb (eq x y)) (nub_by eq t) end.
+Definition dict_sim (a b : list (pykey * pyval)) := py_eq (VDict a) (VDict b) && py_eq (VDict b) (VDict a).
+Definition chk_derived (c : d_case) : bool :=
+  let ms := map (fun i => fst (o_merge (mk_other i) empty_opts)) (fst c) in
+  let calls := snd c in
+  forallb (fun call => forallb (fun gc => existsb (fun m => dict_sim (og m) (fst gc) && dict_sim (oc m) (snd gc)) ms) call) calls
+  && forallb (fun m => existsb (fun call => existsb (fun gc => dict_sim (og m) (fst gc) && dict_sim (oc m) (snd gc)) call) calls) ms
+  && Nat.eqb (List.length calls) (List.length (nub_by (fun a b => py_eq (VDict (og a)) (VDict (og b))) ms))
+  && forallb (fun call => match call with [] => false | gc :: t => forallb (fun gc' => py_eq (VDict (fst gc)) (VDict (fst gc'))) t end) calls.
+"""
+
+GVALS: List[Any] = [1, True, 2, "x", None, ["L", [1, 2]], ["T", [1, 2]], ["S", [1, 2]], ["S", [2, True]], ["D", [["k", 1]]],
+                    ["D", [["k", True]]], ["L", [1, ["D", [["q", ["S", [1]]]]]]]]
+
+
+def gen_group_opts(rng: random.Random) -> List[List[Any]]:
+    ks = rng.sample(["a", "b", "c"], rng.choice([0, 1, 1, 2]))
+    return [[k, rng.choice(GVALS)] for k in ks]
+
+
+def gen_gfeats(rng: random.Random, n: int, names: Optional[List[str]] = None, cfws: Sequence[Any] = (None, [0], [1]),
+               dts: Sequence[Any] = (None, None, 1, 3)) -> List[dict]:
+    pool = [gen_group_opts(rng) for _ in range(rng.choice([1, 2, 2, 3]))]
+    pool += [variant(rng, ["D", p])[1] for p in pool[:2]]
+    out = []
+    for i in range(n):
+        g = json.loads(json.dumps(rng.choice(pool)))
+        if rng.random() < 0.3:
+            rng.shuffle(g)
+        c = [[k, rng.choice([1, 2, "s", ["L", [1]]])] for k in rng.sample(["y", "z"], rng.choice([0, 0, 1, 2]))]
+        out.append({"id": i, "name": names[i] if names else f"f{i}", "g": g, "c": c, "cfw": rng.choice(list(cfws)), "dtype": rng.choice(list(dts))})
+    return out
+
+
+def build_gfeat(d: dict, with_context: bool = True) -> Any:
+    from mloda.core.abstract_plugins.components.feature import Feature
+    from mloda.core.abstract_plugins.components.options import Options
+    from mloda.core.abstract_plugins.components.data_types import DataType
+    f = Feature(d["name"], options=Options(group=to_py(["D", d["g"]]), context=to_py(["D", d["c"]]) if with_context else {}),
+                data_type=None if d["dtype"] is None else DataType[DTYPES[d["dtype"]]])
+    if d["cfw"] is not None:
+        f._set_compute_frameworks({cfw_classes()[i] for i in d["cfw"]})
+    return f
+
+
+def gfeat_term(d: dict) -> str:
+    cf = "None" if d["cfw"] is None else f"(Some {cq_list(cq_nat(i) for i in d['cfw'])})"
+    return (f"{{| g_id := {cq_nat(d['id'])}; g_group := {pairs_term(to_py(['D', d['g']]).items())}; g_ctx := {pairs_term(to_py(['D', d['c']]).items())}; "
+            f"g_cfw := {cf}; g_ty := {vlib.cq_opt(None if d['dtype'] is None else cq_nat(d['dtype']))} |}}")
+
+
+def part_term(groups: List[List[int]]) -> str:
+    return cq_list(cq_list(cq_nat(i) for i in g) for g in groups)
+
+
+def py_agree(a: Any, b: Any) -> bool:
+    """the property text: group options, framework and declared type agree (undeclared agrees with any)"""
+    return (a.options.group == b.options.group and a.compute_frameworks == b.compute_frameworks
+            and (a.data_type is None or b.data_type is None or a.data_type == b.data_type))
+
+
+def py_same_class(a: Any, b: Any) -> bool:
+    """what the implementation compares: canonical form of the group options, frameworks"""
+    from mloda.core.abstract_plugins.components.hashable_dict import _make_hashable
+    return _make_hashable(a.options.group) == _make_hashable(b.options.group) and a.compute_frameworks == b.compute_frameworks
+
+
+def py_conflation(feats: List[Any]) -> bool:
+    return any(py_same_class(a, b) and a.options.group != b.options.group for a, b in itertools.combinations(feats, 2))
+
+
+def py_ambiguous(feats: List[Any]) -> bool:
+    for u in feats:
+        if u.data_type is not None:
+            continue
+        ts = [t for t in feats if t.data_type is not None and py_same_class(t, u)]
+        if len({t.data_type for t in ts}) > 1:
+            return True
+    return False
+
+
+def check_grouping(rep: vlib.Reporter, rng: random.Random, n: int) -> bool:
+    from mloda.core.prepare.execution_plan import ExecutionPlan
+    found = False
+    terms, descs = [], []
+    st = {"features": {}, "groups": {}, "ambiguous_cases": 0, "conflation_cases": 0, "context_stripped_same": 0, "with_untyped_join": 0,
+          "skipped_unhashable": 0, "pairs_checked_against_property_text": 0}
+    kf_hit = None
+    kf_hit2 = None
+    while len(terms) < n:
+        ds = gen_gfeats(rng, rng.randrange(1, 8))
+        try:
+            feats = [build_gfeat(d) for d in ds]
+            fset = set(feats)
+        except TypeError:
+            st["skipped_unhashable"] += 1
+            continue
+        order = list(fset)                                    # the iteration order the function will see
+        res = ExecutionPlan.group_features_by_compute_framework_and_options(None, fset)  # type: ignore[arg-type]
+        by_obj = {id(f): d["id"] for f, d in zip(feats, ds)}
+        groups = [sorted(by_obj[id(f)] for f in g) for g in res.values()]
+        ordered_ds = [ds[by_obj[id(f)]] for f in order]
+        # property on the implementation: context never matters (same features without any context, same insertion order)
+        feats0 = [build_gfeat(d, with_context=False) for d in ds]
+        res0 = ExecutionPlan.group_features_by_compute_framework_and_options(None, set(feats0))  # type: ignore[arg-type]
+        by0 = {id(f): d["id"] for f, d in zip(feats0, ds)}
+        if sorted(sorted(by0[id(f)] for f in g) for g in res0.values()) != sorted(groups):
+            rep.finding("ctx-split:" + json.dumps(ds)[:300], "removing all context options changes which features are grouped together",
+                        {"kind": "grouping", "feats": ds})
+            found = True
+        else:
+            st["context_stripped_same"] += 1
+        # property text on the implementation: together iff (group options, framework, type) agree
+        amb = py_ambiguous(feats)
+        conf = py_conflation(feats)
+        st["ambiguous_cases"] += amb
+        st["conflation_cases"] += conf
+        gi = {i: k for k, g in enumerate(groups) for i in g}
+        for x, y in itertools.combinations(range(len(ds)), 2):
+            st["pairs_checked_against_property_text"] += 1
+            if (gi[x] == gi[y]) != py_agree(feats[x], feats[y]):
+                if conf:
+                    kf_hit2 = kf_hit2 or {"kind": "grouping", "feats": ds, "pair": [x, y], "groups": groups}
+                elif amb:
+                    kf_hit = kf_hit or {"kind": "grouping", "feats": ds, "pair": [x, y], "groups": groups}
+                else:
+                    rep.finding("agree:" + json.dumps(ds)[:300], f"features {x},{y}: grouped together = {gi[x] == gi[y]} but agreement of "
+                                f"(group options, framework, type) = {py_agree(feats[x], feats[y])}", {"kind": "grouping", "feats": ds})
+                    found = True
+        st["features"][len(ds)] = st["features"].get(len(ds), 0) + 1
+        st["groups"][len(groups)] = st["groups"].get(len(groups), 0) + 1
+        if any(len(g) > 1 and any(ds[i]["dtype"] is None for i in g) and any(ds[i]["dtype"] is not None for i in g) for g in groups):
+            st["with_untyped_join"] += 1
+        if len(groups) > 1 and any(len(g) > 1 for g in groups):
+            rep.nontrivial(("grp", ds))
+        terms.append(f"({cq_list(gfeat_term(d) for d in ordered_ds)}, {part_term(groups)})")
+        descs.append(ds)
+    bad, info = vlib.run_cases(P, "grouping", REQ_G, "chk_group", terms, extra_defs=EXTRA_G, case_type="g_case", shard=250)
+    amb_idx, _ = vlib.run_cases(P, "grouping_amb", REQ_G, "chk_not_ambiguous", terms, extra_defs=EXTRA_G, case_type="g_case", shard=250)
+    conf_idx, _ = vlib.run_cases(P, "grouping_conf", REQ_G, "chk_not_conflated", terms, extra_defs=EXTRA_G, case_type="g_case", shard=250)
+    rep.count(len(terms))
+    rep.add("grouping", {**info, "cases": len(terms), "features_per_case": dict(sorted(st["features"].items())),
+                         "groups_per_case": dict(sorted(st["groups"].items())), "ambiguous_domain_python": st["ambiguous_cases"],
+                         "ambiguous_domain_coq": len(amb_idx), "conflation_domain_python": st["conflation_cases"],
+                         "conflation_domain_coq": len(conf_idx),
+                         "pairs_checked_against_property_text": st["pairs_checked_against_property_text"], "untyped_joined_typed_group": st["with_untyped_join"],
+                         "context_stripped_same_partition": st["context_stripped_same"], "skipped_unhashable": st["skipped_unhashable"],
+                         "disagreements": len(bad)})
+    if len(amb_idx) != st["ambiguous_cases"] or len(conf_idx) != st["conflation_cases"]:
+        rep.finding("kf-domain-mismatch", f"known-finding domains classified differently by Python ({st['ambiguous_cases']}, {st['conflation_cases']}) "
+                    f"and Coq ({len(amb_idx)}, {len(conf_idx)})", {"kind": "grouping"}, found_input=False)
+        found = True
+    for i in bad[:5]:
+        rep.finding("grouping:" + json.dumps(descs[i])[:300], "group_features_by_compute_framework_and_options differs from the model",
+                    {"kind": "grouping", "feats": descs[i]})
+        found = True
+    w = grouping_witnesses()
+    rep.coverage["grouping"]["known_finding_witnesses"] = w
+    if kf_hit or w["untyped"]["defect_present"]:
+        rep.finding("C15-untyped-joins-first-typed-group", "untyped feature compatible with two typed groups", kf_hit or w["untyped"])
+    if kf_hit2 or w["conflation"]["defect_present"]:
+        rep.finding("C15-grouping-conflates-list-tuple", "features with unequal group options (same canonical form) computed together",
+                    kf_hit2 or w["conflation"])
+    rep.sample({"kind": "grouping", "feats": descs[0]})
+    return found
+
+
+def grouping_witnesses() -> dict:
+    """the two committed witnesses, replayed on the implementation (a list is passed to fix the iteration order)"""
+    from mloda.core.prepare.execution_plan import ExecutionPlan
+    from mloda.core.abstract_plugins.components.feature import Feature
+    from mloda.core.abstract_plugins.components.options import Options
+    t1, t2, u = Feature.int64_of("t1"), Feature.double_of("t2"), Feature("u")
+    grp = ExecutionPlan.group_features_by_compute_framework_and_options
+
+    def names(fs: List[Any]) -> List[List[str]]:
+        return sorted(sorted(f.name.name for f in g) for g in grp(None, fs).values())  # type: ignore[arg-type]
+    o1, o2 = names([t1, t2, u]), names([t2, t1, u])
+    a = Feature.int64_of("f0", Options(group={"c": [1, 2]}))
+    b = Feature.int64_of("f2", Options(group={"c": (1, 2)}))
+    o3 = names([a, b])
+    return {"untyped": {"kind": "kf_untyped", "order_t1_t2_u": o1, "order_t2_t1_u": o2, "defect_present": o1 != o2},
+            "conflation": {"kind": "kf_conflation", "options_equal": bool(a.options == b.options), "groups": o3,
+                           "defect_present": (not a.options == b.options) and len(o3) == 1}}
+
+
+# ---- end to end
+_calls: List[Any] = []
+COLS = [f"c{i}" for i in range(6)]
+_E2E: Dict[str, type] = {}
+
+
+def e2e_classes() -> Tuple[type, type]:
+    if not _E2E:
+        from mloda.provider import FeatureGroup, DataCreator
+        from mloda.user import Feature
+        from mloda_plugins.compute_framework.base_implementations.pyarrow.table import PyArrowTable
+
+        def input_data(cls: Any) -> Any:
+            return DataCreator(set(COLS))
+
+        def calc_root(cls: Any, data: Any, features: Any) -> Any:
+            _calls.append(("R", [(f.name.name, f.options.group, f.options.context) for f in features.features]))
+            return {c: [1, 2, 3] for c in COLS}
+
+        def cfr(cls: Any) -> Any:
+            return {PyArrowTable}
+
+        def input_features(self: Any, options: Any, feature_name: Any) -> Any:
+            return {Feature("c0"), Feature("c1")}
+
+        def match(cls: Any, feature_name: Any, options: Any, data_access_collection: Any = None) -> bool:
+            return str(feature_name).startswith("d")
+
+        def calc_d(cls: Any, data: Any, features: Any) -> Any:
+            _calls.append(("D", [(f.name.name, f.options.group, f.options.context) for f in features.features]))
+            return {f.name.name: [0, 0, 0] for f in features.features}
+
+        _E2E["R"] = type("K15Root", (FeatureGroup,), {"input_data": classmethod(input_data), "calculate_feature": classmethod(calc_root),
+                                                      "compute_framework_rule": classmethod(cfr)})
+        _E2E["D"] = type("K15Derived", (FeatureGroup,), {"input_features": input_features, "match_feature_group_criteria": classmethod(match),
+                                                         "calculate_feature": classmethod(calc_d), "compute_framework_rule": classmethod(cfr)})
+    return _E2E["R"], _E2E["D"]
+
+
+def run_request(feats: List[Any]) -> Tuple[Optional[str], List[Any]]:
+    from mloda.user import mloda, PluginCollector
+    from mloda_plugins.compute_framework.base_implementations.pyarrow.table import PyArrowTable
+    R, D = e2e_classes()
+    _calls.clear()
+    try:
+        mloda.run_all(feats, compute_frameworks={PyArrowTable}, plugin_collector=PluginCollector.enabled_feature_groups({R, D}))
+        return None, list(_calls)
+    except Exception as e:  # noqa: BLE001
+        tag = " [Features have different options]" if "Features have different options" in str(e) else ""
+        return f"{type(e).__name__}:{tag} {str(e)[:160]}", list(_calls)
+
+
+def check_e2e(rep: vlib.Reporter, rng: random.Random, n: int) -> bool:
+    from mloda.user import Feature, Options
+    found = False
+    terms, descs, dterms, ddescs, gterms2 = [], [], [], [], []
+    st = {"runs": 0, "exceptions": {}, "root_calls": {}, "context_only_requests": 0, "context_only_single_call": 0,
+          "derived_runs": 0, "derived_root_calls": {}}
+    kf_conf: Optional[dict] = None
+    # A: direct requests on the root group (group / context / declared type variations)
+    for _ in range(n):
+        k = rng.randrange(1, 6)
+        ds = gen_gfeats(rng, k, names=COLS, cfws=(None,), dts=(None, None, 0, 1))    # INT32 / INT64 on int64 data (lenient)
+        if rng.random() < 0.25:                      # only the context varies: must be exactly one call
+            for d in ds:
+                d["g"], d["dtype"] = ds[0]["g"], ds[0]["dtype"]
+        try:
+            feats = [build_gfeat(d) for d in ds]
+            {hash(f) for f in feats}
+        except TypeError:
+            continue
+        exc, calls = run_request(feats)
+        st["runs"] += 1
+        if exc:
+            st["exceptions"][exc[:60]] = st["exceptions"].get(exc[:60], 0) + 1
+            if "[Features have different options]" in exc and py_conflation(feats):
+                # known-finding domain: unequal options with one canonical form were put into one step, which then fails its
+                # own equal-options validation
+                kf_conf = kf_conf or {"kind": "e2e", "feats": ds, "exception": exc[:120]}
+                continue
+            rep.finding("e2e-exc:" + json.dumps(ds)[:300], "run_all raised on a request over one root group: " + exc, {"kind": "e2e", "feats": ds})
+            found = True
+            continue
+        byname = {d["name"]: d["id"] for d in ds}
+        groups = [sorted(byname[nm] for nm, _, _ in c[1]) for c in calls if c[0] == "R"]
+        st["root_calls"][len(groups)] = st["root_calls"].get(len(groups), 0) + 1
+        same_key = all(to_py(["D", d["g"]]) == to_py(["D", ds[0]["g"]]) and d["dtype"] == ds[0]["dtype"] for d in ds)
+        if same_key:
+            st["context_only_requests"] += 1
+            if len(groups) == 1:
+                st["context_only_single_call"] += 1
+            else:
+                rep.finding("e2e-ctx:" + json.dumps(ds)[:300], f"features that differ only in context options were computed in {len(groups)} calls",
+                            {"kind": "e2e", "feats": ds})
+                found = True
+        if len(groups) > 1:
+            rep.nontrivial(("e2e", ds))
+        terms.append(f"({cq_list(gfeat_term(d) for d in ds)}, {part_term(groups)})")
+        descs.append(ds)
+    # B: derived features d_i whose options are merged into their inputs c0, c1
+    for _ in range(max(20, n // 3)):
+        k = rng.randrange(1, 4)
+        gds = gen_gfeats(rng, k, names=[f"d{i}" for i in range(k)], cfws=(None,), dts=(None,))
+        inis = []
+        for d in gds:
+            p = [c[0] for c in d["c"] if rng.random() < 0.6]
+            inis.append({"g": d["g"], "c": d["c"], "p": p})
+        try:
+            feats = [Feature(d["name"], options=build_options(i)) for d, i in zip(gds, inis)]
+            {hash(f) for f in feats}
+        except TypeError:
+            continue
+        exc, calls = run_request(feats)
+        st["derived_runs"] += 1
+        if exc:
+            st["exceptions"][exc[:60]] = st["exceptions"].get(exc[:60], 0) + 1
+            if "[Features have different options]" in exc and py_conflation(feats):
+                kf_conf = kf_conf or {"kind": "e2e_derived", "inis": inis, "exception": exc[:120]}
+                continue
+            rep.finding("e2e-derived-exc:" + json.dumps(inis)[:300], "run_all raised on derived features: " + exc, {"kind": "e2e_derived", "inis": inis})
+            found = True
+            continue
+        rcalls = [c[1] for c in calls if c[0] == "R"]
+        st["derived_root_calls"][len(rcalls)] = st["derived_root_calls"].get(len(rcalls), 0) + 1
+        try:
+            obs = cq_list(cq_list(f"({pairs_term(g.items())}, {pairs_term(c.items())})" for _, g, c in call) for call in rcalls)
+        except Unmodelled:
+            continue
+        dterms.append(f"({cq_list(init_term(i) for i in inis)}, {obs})")
+        ddescs.append(inis)
+        byname = {d["name"]: d["id"] for d in gds}
+        gterms2.append(f"({cq_list(gfeat_term(d) for d in gds)}, {part_term([sorted(byname[nm] for nm, _, _ in c[1]) for c in calls if c[0] == 'D'])})")
+        if len(rcalls) > 1:
+            rep.nontrivial(("e2ed", inis))
+    bad, info = vlib.run_cases(P, "e2e", REQ_G, "chk_e2e", terms, extra_defs=EXTRA_G, case_type="g_case", shard=100)
+    bad_d, _ = vlib.run_cases(P, "e2e_derived", REQ_G, "chk_derived", dterms, extra_defs=EXTRA_G, case_type="d_case", shard=100)
+    bad_g, _ = vlib.run_cases(P, "e2e_derived_groups", REQ_G, "chk_e2e", gterms2, extra_defs=EXTRA_G, case_type="g_case", shard=100)
+    rep.count(len(terms) + len(dterms))
+    rep.coverage["traces_validated_against_impl"] = len(terms) + len(dterms)
+    rep.add("e2e", {**info, **st, "root_calls": dict(sorted(st["root_calls"].items())),
+                    "derived_root_calls": dict(sorted(st["derived_root_calls"].items())),
+                    "disagreements": len(bad) + len(bad_d) + len(bad_g)})
+    for i in bad[:5]:
+        rep.finding("e2e:" + json.dumps(descs[i])[:300], "the calculation calls of run_all (number / composition) are not explained by the "
+                    "grouping model for any set iteration order", {"kind": "e2e", "feats": descs[i]})
+        found = True
+    for i in (bad_d + bad_g)[:5]:
+        rep.finding("e2e-derived:" + json.dumps(ddescs[i])[:300], "input features of derived features: merged options / number of root calls differ "
+                    "from o_merge + grouping model", {"kind": "e2e_derived", "inis": ddescs[i]})
+        found = True
+    if kf_conf:
+        rep.coverage["e2e"]["known_finding_conflation_run_failure"] = kf_conf
+        rep.finding("C15-grouping-conflates-list-tuple", "run_all fails with 'Features have different options'", kf_conf)
+    if descs:
+        rep.sample({"kind": "e2e", "feats": descs[0]})
+    return found
+
+
+# ------------------------------------------------------------------------------------------------------------
 def run(rep: vlib.Reporter, tier: str, seed: int) -> None:
     rng = random.Random(seed * 7919 + 15)
     big = tier == "thorough"
@@ -891,7 +1263,25 @@ def run(rep: vlib.Reporter, tier: str, seed: int) -> None:
     found |= check_ops(rep, rng, 50000 if big else 3000)
     found |= check_values(rep, rng, 30000 if big else 3000)
     found |= check_ident(rep, rng, 8000 if big else 1200)
-    rep.add("rule", "TODO")
+    found |= check_grouping(rep, rng, 20000 if big else 1500)
+    found |= check_e2e(rep, rng, 4000 if big else 400)
+    rep.coverage["trusted_base"] += [
+        "hand-written models Model/Options.v (py_eq, canon = _make_hashable, Options operations, merge_options), Model/Identity.v "
+        "(eq / hash keys of Feature, Link, Index, SingleFilter), Model/Grouping.v (group_features_by_compute_framework_and_options); "
+        "tied by correspondence (T2) on the inputs listed under coverage",
+        "Python hash() of str / int / bool / None / tuple / frozenset / Enum respects == and does not collide on the different "
+        "canonical forms explored (grouping is by hash integers)",
+        "value fragment: dict keys are atoms (str incl. str-Enum, int, bool, None, plain Enum member); no floats; opaque objects are "
+        "Enum members (hashable) or identity-equal unhashable objects; Feature objects inside options only in the in_features witness",
+        "set iteration order: the unit-level grouping tie reads list(set) of the very set passed in; the end-to-end tie accepts any order",
+        "not modelled: _split_features_by_dependency_levels (features of one group that depend on each other), Options.__deepcopy__"]
+    rep.add("rule", "ops: PRNG sequences of <= 12 calls on a real Options object over 3-6 colliding keys (values nested <= 2 levels), state "
+                    "and exception compared after every call; values/identities: PRNG pairs where the second object is a re-written "
+                    "(reordered dict/set, True for 1, list<->tuple) or slightly mutated copy of the first; grouping: 1-7 real Features over "
+                    "1-3 option classes x framework x declared type, iteration order read from the set; e2e: run_all on a generated root "
+                    "group (<= 5 requested columns) and a derived group whose options are merged into its inputs. non-trivial = an ops "
+                    "sequence with both succeeding and raising calls / an equal pair written differently / >1 group with a shared group / "
+                    ">1 calculation call")
     if not pr.ok and not found:
         rep.finding("proof-broken", "Props/C15.v no longer checks",
                     {"failed_files": pr.failed_files, "forbidden": pr.forbidden, "log_tail": pr.log[-3000:]}, found_input=False)
